@@ -220,3 +220,71 @@ def sparsity_truth(kv1, p1, kv2, p2):
     s2 = [(kv2[i], kv2[i + p2 + 1]) for i in range(len(kv2) - p2 - 1)]
     return [[i, j] for i in range(len(s2)) for j in range(len(s1))
             if min(s1[j][1], s2[i][1]) > max(s1[j][0], s2[i][0])]
+
+
+# ---------------------------------------------------------------------------
+# enumeration of all 0/1 patterns of small blocks (shared by driver and harness)
+# ---------------------------------------------------------------------------
+
+def sweep_total(blocks):
+    return prod(2 ** (m * n) for m, n in blocks)
+
+
+def sweep_bidx(blocks, idx):
+    rem = idx
+    bidx = []
+    for (m, n) in blocks:
+        b = m * n
+        bits = rem % (2 ** b)
+        rem //= 2 ** b
+        bidx.append([[q // n, q % n] for q in range(b) if (bits >> q) & 1])
+    return bidx
+
+
+def sweep_case(blocks, idx):
+    """all rows and all columns are queried, in an unsorted duplicate-free order"""
+    M, N = prod(b[0] for b in blocks), prod(b[1] for b in blocks)
+    return {'kind': 'ml', 'bs': [list(b) for b in blocks], 'bidx': sweep_bidx(blocks, idx),
+            'rows': [(r * 5 + 3) % M for r in range(M)] if M % 5 else list(range(M - 1, -1, -1)),
+            'cols': list(range(N - 1, -1, -1))}
+
+
+def sweep_kronp_case(blocks, idx):
+    """factor matrices with distinct non-zero values at the pattern positions; all rows, unsorted"""
+    As = []
+    for (m, n), p in zip(blocks, sweep_bidx(blocks, idx)):
+        A = [[0] * n for _ in range(m)]
+        for (i, j) in p:
+            A[i][j] = i * n + j + 1
+        As.append(A)
+    M = prod(b[0] for b in blocks)
+    return {'kind': 'kronp', 'As': As, 'rows': [(r * 5 + 3) % M for r in range(M)] if M % 5 else list(range(M - 1, -1, -1))}
+
+
+def check_kronp(c, r):
+    """kron_partial = selected rows of the dense Kronecker product; from_kronecker = its pattern"""
+    bad = []
+
+    def err(x):
+        return isinstance(x, dict) and 'error' in x
+    if err(r):
+        return [('kron-partial-raises', 'kron_partial could not be evaluated: %s' % (r,))]
+    K = kron_dense(c['As'])
+    M, N = len(K), len(K[0]) if K else 0
+    rows = c['rows']
+    if c['restrict']:
+        exp = sorted([q, j, K[rw][j]] for q, rw in enumerate(rows) for j in range(N) if K[rw][j] != 0)
+        shp = [len(rows), N]
+    else:
+        exp = sorted([rw, j, K[rw][j]] for rw in rows for j in range(N) if K[rw][j] != 0)
+        shp = [M, N]
+    for key in ('out', 'out_csc'):
+        if err(r[key]) or r[key]['triples'] != exp or r[key]['shape'] != shp:
+            bad.append(('kron-partial' + (':restrict' if c['restrict'] else ''),
+                        'kron_partial(rows=%s, restrict=%s) is not the selected rows of the Kronecker product: %s' % (
+                            rows, c['restrict'], str(r[key])[:120])))
+            break
+    exp_nz = sorted((i, j) for i in range(M) for j in range(N) if K[i][j] != 0)
+    if err(r['from_kronecker_nz']) or sorted(zip(*r['from_kronecker_nz'])) != exp_nz:
+        bad.append(('from-kronecker', 'MLStructure.from_kronecker(As).nonzero() is not the pattern of kron(As)'))
+    return bad
